@@ -245,7 +245,7 @@ def _axis_circles(ctx, mdl):
                             pts = [it.call_method(a, 'point', Rat.const(Fr(j, steps))) for j in range(steps + 1)]
                             return a.attrs['center'], a.attrs['theta'], a.attrs['delta'], pts
                         try:
-                            paths = explore(mdl, th, {})
+                            paths = explore(mdl, th, {'time_limit': 20})
                         except Undecidable as e:
                             und = und or str(e)
                             continue
@@ -296,7 +296,7 @@ def _axis_circles(ctx, mdl):
                     out.append((a.attrs['center'], a.attrs['theta'], a.attrs['delta'], a.attrs['radius']))
                 return out
             try:
-                for pth in explore(mdl, th_seq, {'ext_hooks': {'builtins.hash': lambda it, a_, k_: 7}}):
+                for pth in explore(mdl, th_seq, {'ext_hooks': {'builtins.hash': lambda it, a_, k_: 7}, 'time_limit': 30}):
                     if pth.raised is not None:
                         bad.append('a sequence of constructions raises %s' % pth.raised.exc_name)
                         continue
@@ -360,9 +360,11 @@ def _returned_arcs(ctx, mdl):
                     out.append([(k_, f_.get(k_), fresh.attrs.get(k_)) for k_ in ('center', 'theta', 'delta', 'radius')])
                 return out
             try:
-                paths = explore(mdl, th, {})
+                paths = explore(mdl, th, {'time_limit': 20})
             except Undecidable as e:
                 und = und or str(e)
+                if 'time limit' in str(e):
+                    break               # the other circles would run into the same wall
                 continue
             for pth in paths:
                 if pth.raised is not None:
